@@ -109,6 +109,8 @@ func GenExchangeDoc(t *rapid.T, eo ExchangeOptions) Doc {
 	doc := Doc{Components: comps}
 	names := comps.Names()
 	combos := AdmittedCombos()
+	// in half of the documents EVERY object-shaped parameter is typed by a shared component
+	shareAll := eo.SharedParamObjects && rapid.Bool().Draw(t, "shareall")
 	nops := rapid.IntRange(3, 7).Draw(t, "nops")
 	for i := 0; i < nops; i++ {
 		op := Operation{ID: fmt.Sprintf("op%d", i), Method: rapid.SampledFrom([]string{"GET", "POST", "PUT", "DELETE", "PATCH"}).Draw(t, "method")}
@@ -145,7 +147,7 @@ func GenExchangeDoc(t *rapid.T, eo ExchangeOptions) Doc {
 					o.Props = append(o.Props, Prop{Name: fn, Schema: primSchema(t, ExchangeOptions{Formats: eo.Formats, TimeFormat: eo.TimeFormat}), Required: f == 0 || rapid.Bool().Draw(t, "freq")})
 				}
 				p.Schema = o
-				if eo.SharedParamObjects && rapid.IntRange(0, 1).Draw(t, "sharedobj") == 0 {
+				if eo.SharedParamObjects && (shareAll || rapid.IntRange(0, 1).Draw(t, "sharedobj") == 0) {
 					// the parameter's object type is a COMPONENT that a JSON body uses too
 					cname := fmt.Sprintf("PObj%d_%d", i, j)
 					comps[cname] = o
